@@ -154,7 +154,15 @@ def _proposals(exprs, muts):
     return out
 
 
-def run_pairs(name, lo, hi):
+def known_cycle(d1, d2):
+    """Region of the open known finding C03-replace-by-variable-eliminate-
+    variable: a non-leaf operand T of an equality is replaced by a variable v
+    of its sort, and EliminateVariable on that equality puts T back for v."""
+    return d1.startswith('ReplaceByVariable on (') \
+        and d2.startswith('EliminateVariable on (=')
+
+
+def run_pairs(name, lo, hi, known=None, stats=None, cap=None):
     from ddsmt import nodeio, nodes, options, mutators
     ns = options.parse_options(mutators, ['in.smt2', 'out.smt2', 'cmd'])
     setattr(options, '__PARSED_ARGS', ns)
@@ -167,6 +175,15 @@ def run_pairs(name, lo, hi):
     n = 0
     bad = None
     seen2 = {t_orig}
+    # cap: at most about that many two-step chains - first steps are then
+    # taken at a regular stride over all (node, mutator) positions
+    stride = 1
+    if cap is not None and len(first) ** 2 > cap:
+        stride = -(-len(first) ** 2 // cap)
+    if stats is not None:
+        stats['first'] = stats.get('first', 0) + len(first)
+        stats['first_followed'] = stats.get('first_followed', 0) + \
+            len(range(0, len(first), stride))
     for k, (d1, t1, r1) in enumerate(first):
         if t1 == 'HANG':
             if bad is None:
@@ -177,7 +194,7 @@ def run_pairs(name, lo, hi):
         if t1 == t_orig and bad is None:
             bad = ({'script': name, 'first': k, 'second': -1},
                    f'no-op: "{d1}" proposes the input itself: {t_orig!r}')
-        if not (lo <= k < hi):
+        if not (lo <= k < hi) or k % stride:
             continue
         r1 = nodes.reduplicate(r1)
         for j, (d2, t2, r2) in enumerate(_proposals(r1, muts)):
@@ -186,7 +203,10 @@ def run_pairs(name, lo, hi):
                 bad = ({'script': name, 'first': k, 'second': j},
                        f'"{d2}" does not deliver its proposals within 10 s '
                        f'on {t1!r}')
-            if t2 == t_orig and bad is None:
+            if t2 == t_orig and known is not None and known(d1, d2):
+                if stats is not None:
+                    stats['known'] = stats.get('known', 0) + 1
+            elif t2 == t_orig and bad is None:
                 bad = ({'script': name, 'first': k, 'second': j},
                        f'2-cycle: {t_orig!r} --[{d1}]--> {t1!r} --[{d2}]--> '
                        f'back to the start')
@@ -212,6 +232,60 @@ def run_pairs(name, lo, hi):
             'solver_checks': 0, 'solver_seconds': 0.0,
             'wall_s': round(time.time() - t0, 2),
             'note': 'concrete bounded-exhaustive enumeration (auxiliary)'}
+
+
+def run_pairs_typed(fnames, tier, want=None):
+    """Two-step chains on the well-sorted scripts of C16's typed generator
+    (every operator family x operand kind)."""
+    from harness import c15
+    from ddsmt import nodeio
+    t0 = time.time()
+    n = nscripts = 0
+    stats = {}
+    bad = None
+    for fname in fnames:
+        if want is not None and fname != want:
+            continue
+        ex = c15.typed_script(fname, (3, 5, 2))
+        if ex is None:
+            continue
+        nscripts += 1
+        CYCLE_SCRIPTS['_typed'] = nodeio.write_smtlib_to_str(ex)
+        try:
+            r = run_pairs('_typed', 0, 10 ** 9, known_cycle, stats,
+                          cap=3000 if tier == 'quick' else 60000)
+        finally:
+            CYCLE_SCRIPTS.pop('_typed', None)
+        n += r['paths']
+        if r['status'] == 'VIOLATED':
+            bad = ({'family': fname, **r['cex']}, r['exc']['msg'])
+            break
+    return {'status': 'VIOLATED' if bad else 'CONFIRMED',
+            'cex': bad[0] if bad else None,
+            'exc': {'type': 'Violation', 'msg': bad[1]} if bad else None,
+            'paths': n, 'paths_ok': n,
+            'samples': [{'families': fnames[:3]}],
+            'solver_checks': 0, 'solver_seconds': 0.0,
+            'queries': {'scripts': nscripts,
+                        'first_steps': stats.get('first', 0),
+                        'first_steps_followed': stats.get('first_followed', 0),
+                        'cycles_in_known_region': stats.get('known', 0)},
+            'wall_s': round(time.time() - t0, 2),
+            'note': 'concrete bounded-exhaustive enumeration (auxiliary)'}
+
+
+KNOWN_CYCLE_SCRIPT = ('(declare-const x (_ BitVec 3))'
+                      '(declare-const y (_ BitVec 3))'
+                      '(assert (= (bvneg x) (bvneg x)))')
+
+
+def known_cycle_witness():
+    CYCLE_SCRIPTS['_known'] = KNOWN_CYCLE_SCRIPT
+    try:
+        r = run_pairs('_known', 0, 10 ** 9)
+    finally:
+        CYCLE_SCRIPTS.pop('_known', None)
+    return r['exc']['msg'] if r['exc'] else None
 
 
 def run_fuel():
@@ -354,8 +428,17 @@ def partitions(tier):
         for lo in range(0, 400, 50):
             parts.append({'name': f'pairs_{name}_{lo}', 'kind': 'native',
                           'run': (lambda name=name, lo=lo:
-                                  run_pairs(name, lo, lo + 50)),
+                                  run_pairs(name, lo, lo + 50, known_cycle)),
                           'budget_s': 600})
+    from harness import c16
+    fams = list(c16.FAMS)
+    nch = 16
+    for k in range(nch):
+        chunk = fams[k::nch]
+        parts.append({'name': f'tpairs_{k}', 'kind': 'native',
+                      'run': (lambda chunk=chunk:
+                              run_pairs_typed(chunk, tier)),
+                      'budget_s': 900, 'bounds': {'families': len(chunk)}})
     parts.append({'name': 'fuel', 'kind': 'native', 'run': run_fuel,
                   'budget_s': 600})
     return parts
@@ -370,9 +453,14 @@ def replay(part, cex):
             r, _ = chain_once(cex['bits'], st, name,
                               8 if tier == 'quick' else 11)
             return None if r in (None, 'skip') else r
+        if part == 'known_rbv_elim':
+            return known_cycle_witness()
+        if part.startswith('tpairs'):
+            r = run_pairs_typed([cex['family']], tier)
+            return r['exc']['msg'] if r['exc'] else None
         if part.startswith('pairs'):
             _, name, lo = part.split('_')
-            r = run_pairs(name, int(lo), int(lo) + 50)
+            r = run_pairs(name, int(lo), int(lo) + 50, known_cycle)
             return r['exc']['msg'] if r['exc'] else None
         if part == 'fuel':
             r = run_fuel()
